@@ -325,6 +325,102 @@ def run(ctx, rep):
             rep.ob('R7.4', f'{p}:loop', cls, detail, where=b.span)
     rep.floor('loops', n_loops, 1)
     rep.extra['loops'] = n_loops
+    # recursion: a cycle in the call graph below the entry point needs a termination argument of its own
+    g = ctx.lib.call_graph()
+
+    def below(n):
+        seen, todo = set(), list(g.get(n, ()))
+        while todo:
+            x = todo.pop()
+            if x not in seen:
+                seen.add(x)
+                todo.extend(g.get(x, ()))
+        return seen
+    n_rec = 0
+    for p in sorted(reach):
+        if p not in g or p not in below(p):
+            continue
+        n_rec += 1
+        if p in g.get(p, ()):
+            cls, detail = classify_recursion(ctx, p)
+        else:
+            cls, detail = None, 'mutual recursion: termination not decided'
+        rep.ob('R7.4', f'{p}:recursion', cls, detail, where=ctx.lib.bodies[p].span)
+    rep.extra['recursive_functions'] = n_rec
+
+
+def classify_recursion(ctx, p):
+    """self-recursion `f(.., x, ..)` made under a guard on its own by-value arguments: with d = lhs - rhs of the guard, every
+    recursive call must move d towards the side on which the guard fails, by an amount bounded away from zero over the
+    property's parameter domain (minute offsets in [-1500, 1500])."""
+    eng = ctx.engine()
+    args = eng.sym_args(p)
+    try:
+        tree = eng.call_entry(p, args)
+        list(E.leaves_of(tree))
+    except Exception as ex:     # noqa
+        return None, f'recursive function not analysed: {type(ex).__name__}'
+    calls = [c for c in eng.recursive_calls if c[0] == p]
+    if not calls:
+        return None, 'the recursive call is not reached by the analysis'
+    byval = [(i, a) for i, a in enumerate(args) if a[0] == 'param']
+
+    def subst(t, m):
+        if t in m:
+            return m[t]
+        if isinstance(t, tuple):
+            return tuple(subst(x, m) for x in t)
+        return t
+
+    def bounds(pl):
+        lo = hi = 0.0
+        for mono, c in pl.items():
+            if mono == ():
+                r = (1.0, 1.0)
+            elif len(mono) == 1 and mono[0][0] == 'mapget' and mono[0][1] == ('field', ('param', 'params'), 'minutes'):
+                r = (-1500.0, 1500.0)
+            else:
+                return None
+            a, b = sorted((c * r[0], c * r[1]))
+            lo += a
+            hi += b
+        return lo, hi
+    verdicts = []
+    for (_, cargs, asm, _frm) in calls:
+        m = {a: cargs[i] for i, a in byval if i < len(cargs)}
+        found = None
+        for c, pol in asm.items():
+            if not (isinstance(c, tuple) and c and c[0] == 'bin' and c[1] in ('Lt', 'Le', 'Gt', 'Ge')):
+                continue
+            if not any(x in m for x in subterms(c)):
+                continue
+            d = ('bin', 'Sub', c[2], c[3])
+            step = D._padd(D.poly(E.intern(subst(d, m))), D.poly(E.intern(d)), -1.0)
+            # the call is made while d < 0 (Lt/Le taken, or Gt/Ge refused): d has to grow; otherwise it has to shrink
+            grows = (c[1] in ('Lt', 'Le')) == bool(pol)
+            b = bounds(step)
+            found = (c, pol, step, grows, b)
+            break
+        if found is None:
+            verdicts.append((None, 'no guard on the function\'s own arguments dominates the recursive call'))
+            continue
+        c, pol, step, grows, b = found
+        sp = D.show_poly(step, show)
+        if b is None:
+            verdicts.append((None, f'per-call change of the guarded quantity is {sp}: not bounded'))
+        elif (grows and b[0] > 0) or (not grows and b[1] < 0):
+            verdicts.append((True, f'every recursive call moves the guarded quantity by {sp} in [{b[0]:g}, {b[1]:g}] towards the exit'))
+        else:
+            verdicts.append((False, f'the recursive call is made while {show(c, maxd=4)[:80]} is {bool(pol)}, and changes the guarded quantity by '
+                             f'{sp}, which over minute offsets in [-1500, 1500] ranges over [{b[0]:g}, {b[1]:g}]: for some offsets the call '
+                             'does not approach the exit - unbounded recursion (stack overflow)'))
+    for v in verdicts:
+        if v[0] is False:
+            return v
+    for v in verdicts:
+        if v[0] is None:
+            return v
+    return verdicts[0]
 
 
 ITER_NEXT = re.compile(r'::next$')
